@@ -13,7 +13,7 @@ def g_roundtrip(w, rng, st):
         return None
     w.idc += 1
     return {'fmt': rng.choice(['GRAPHML', 'JSON_NODELINK']), 'via': rng.choice(['string', 'file']),
-            'policy': rng.choice(['new_id', 'keep_id']), 'new': 'rt-%d' % w.idc}
+            'policy': rng.choice(['new_id', 'keep_id', 'same_object']), 'new': 'rt-%d' % w.idc}
 
 
 def content_of(state):
@@ -61,14 +61,18 @@ def x_roundtrip(w, s, st, info):
                'serialized topology does not carry the model: %s' % state_diff(strip_gid(content), content_of(src), 'text', 'model'))
         return
     cls = SubstrateTopology if w.cfg['flavour'] == 'substrate' else ExperimentTopology
-    t2 = cls(importer=w.imp)
+    # 'same_object': the topology re-loads its own serialized model (same graph id) into itself
+    t2 = w.topo if s['policy'] == 'same_object' else cls(importer=w.imp)
+    if s['policy'] == 'same_object':
+        w.handles.clear()
     try:
         if s['via'] == 'file':
             t2.load(file_name=path)                      # keeps the graph id (direct import)
             gid2 = w.gid()
-        elif s['policy'] == 'keep_id':
+        elif s['policy'] in ('keep_id', 'same_object'):
+            gid_before = w.gid()
             t2.load(graph_string=text)
-            gid2 = w.gid()
+            gid2 = gid_before
         else:
             t2.load(graph_string=text, new_graph_id=s['new'])
             gid2 = s['new']
